@@ -395,6 +395,9 @@ class GraphMLProp(props.BaseProp):
     run_module = "Model.XmlEscape Model.GraphML Run.RunGraphML"
     harness_mode = "graphml"
     shards = 12
+    # a model/implementation difference means the proved model no longer describes the code (the property is
+    # then no longer shown to hold); an input on which the property itself fails is reported by the oracle
+    diff_kind = "model-mismatch"
 
     def __init__(self, pid, quick_n, thorough_n, rule):
         self.id = pid
